@@ -160,7 +160,7 @@ def run(tier: str, seed: int) -> int:
         # the same values as a VERSION *file* read by the build script, in the layouts such a file is found in: entries in any order (an empty
         # EXTRAVERSION before the other entries), CRLF line ends and no final line break, no blanks around '=', comments and blank lines, other entries
         lines_v = [ln for ln in txt.split("\n") if ln]
-        layout = n % 6
+        layout = n % 8
         if layout == 1:
             rng.shuffle(lines_v)
         elif layout == 2:
@@ -175,6 +175,11 @@ def run(tier: str, seed: int) -> int:
                                                                                            "SYSCTRL_VERSION_EXTRA =" + (" " + sys_extra if sys_extra else "")]
             if sys_tweak is not None:
                 lines_v.append(f"SYSCTRL_VERSION_TWEAK = {sys_tweak}")
+        elif layout == 6:
+            # exactly one of the two overrides next to the version fields: the other default still follows from the fields (C20-p)
+            lines_v.insert(n % (len(lines_v) + 1), "APP_ROOT_VERSION = 7.7.7-rc.7")
+        elif layout == 7:
+            lines_v.insert(n % (len(lines_v) + 1), "APP_ROOT_SEQ_NUM = 41")
         text_v = ("\r\n" if layout == 3 else "\n").join(lines_v) + ("" if layout == 3 else "\n")
         with tempfile.TemporaryDirectory(prefix="verif_c20_") as vd:
             vf = os.path.join(vd, "VERSION")
@@ -193,8 +198,13 @@ def run(tier: str, seed: int) -> int:
                 res.spec_failures.append({"case": [M, m, p, t, e], "version_file": text_v, "SCFW_SEQ_NUM": got.get("SCFW_SEQ_NUM"), "SCFW_VERSION": got.get("SCFW_VERSION"),
                                           "expected": [want_seq, want_ver],
                                           "what": "the system controller's sequence number / version are not those of its own SYSCTRL_VERSION_* entries"})
-        if via_file != impl:
-            res.spec_failures.append({"case": [M, m, p, t, e], "version_file": text_v, "through_the_file": via_file, "from_the_values": impl,
+        want_file = impl
+        if "ok" in impl and layout == 6:
+            want_file = {"ok": {"version": "7.7.7-rc.7", "seq": impl["ok"]["seq"]}}
+        elif "ok" in impl and layout == 7:
+            want_file = {"ok": {"version": impl["ok"]["version"], "seq": 41}}
+        if via_file != want_file:
+            res.spec_failures.append({"case": [M, m, p, t, e], "version_file": text_v, "through_the_file": via_file, "from_the_values": want_file,
                                       "what": "the default version / sequence number read from the VERSION file differ from those of the values it holds"})
         model = drv.call({"op": "version.default", "major": str(M), "minor": str(m), "patch": str(p), "extra": e,
                           "tweak": None if t is None else str(t)})
